@@ -217,10 +217,12 @@ func decodeString(src *bufio.Reader, noQuotes bool) []byte {
 	length := decodeIntAdditionalType(src, minor)
 	len := int(length)
 	pbs := readNBytes(src, len)
-	result = append(result, pbs...)
 	if noQuotes {
-		return result
+		return append(result, pbs...)
 	}
+	// A byte string becomes a JSON string: escape it the way text strings
+	// are (and the way the JSON encoder's AppendBytes does).
+	result = decodeStringComplex(result, string(pbs), 0)
 	return append(result, '"')
 }
 func decodeStringToDataUrl(src *bufio.Reader, mimeType string) []byte {
